@@ -12,8 +12,16 @@ MAXIN = 160
 
 class Pipe:
     def __init__(self, pid, group, slug, text, depth, dtype, raw, gen, model, tol=False):
+        # group / raw / dtype are overwritten from harness/c13_pipes.def (single source of truth), see bottom of this file
         self.pid, self.group, self.slug, self.text, self.depth = pid, group, slug, text, depth
         self.dtype, self.raw, self.gen, self.model, self.tol = dtype, raw, gen, model, tol
+        # structure of the expression tree:
+        #   chain            every operation has at most one view operand and it is the first one
+        #   ufunc_view_op    a binary ufunc has a (broadcast) view as an operand
+        #   tree_right_view  a binary non-ufunc operation has a view as its *second* operand
+        # tree: some binary operation has a view as its second operand (the expression is not a chain)
+        self.cls = "chain"
+        self.tree = False
 
 
 # ---------------------------------------------------------------- shapes
@@ -130,7 +138,7 @@ def g_reduce_div(rng):
     ax = raxis(rng, len(s))
     ks = list(s)
     ks[ax] = 1
-    b = small(rng, ks, 1, 4) * DEN * rng.choice([1, 2, 4])   # divisors 1,2,4,..16: quotients exact in binary32
+    # divisors 1,2,4,8: quotients exact in binary32
     b = np.array([rng.choice([1, 2, 4, 8]) * DEN for _ in range(int(np.prod(ks)))], dtype=np.int64).reshape(ks)
     return [fdata(rng, s), b, NONE], [ax]
 
@@ -255,8 +263,10 @@ def g_where(rng):
 
 
 def g_concat(rng):
+    # non-negative axis only: on the unchanged tree view::concatenate with a negative axis over dynamic shapes asserts or
+    # returns a wrong shape on the host already (not a C13 matter)
     s = rshape(rng, 1, 3, 48)
-    ax = raxis(rng, len(s))
+    ax = raxis(rng, len(s), neg=False)
     t = list(s)
     t[ax] = rng.randint(1, 4)
     return [lab(s), lab(t, 1000), NONE], [ax]
@@ -373,6 +383,49 @@ def g_roll(rng):
     return [lab(s), NONE, NONE], [rng.randint(-s[ax], s[ax]), ax]
 
 
+def g_concat_add(rng):
+    sa, sb = bpair(rng, 1, 3)
+    out = list(np.broadcast_shapes(tuple(sa), tuple(sb)))
+    while int(np.prod(out)) > 60:
+        sa, sb = bpair(rng, 1, 3)
+        out = list(np.broadcast_shapes(tuple(sa), tuple(sb)))
+    ax = raxis(rng, len(out), neg=False)
+    t = list(out)
+    t[ax] = rng.randint(1, 3)
+    return [lab(sa), lab(sb, 1000), lab(t, 1000000)], [ax]
+
+
+def g_matmul_tr(rng):
+    # m == n: the (wrong) linearised composition matmul(transpose(a),b) is then shape-compatible, so that the extraction
+    # check can compare values instead of running into an invalid matmul
+    m, k = rng.randint(2, 5), rng.randint(2, 5)
+    return [lab([m, k]), lab([m, k], 100), NONE], [1, 0]
+
+
+def g_outer_add3(rng):
+    sa, sb = bpair(rng, 1, 2)
+    out = list(np.broadcast_shapes(tuple(sa), tuple(sb)))
+    while int(np.prod(out)) > 16:
+        sa, sb = bpair(rng, 1, 2)
+        out = list(np.broadcast_shapes(tuple(sa), tuple(sb)))
+    sc = rshape(rng, 1, 2, 6)
+    return [lab(sa), lab(sb, 1000), lab(sc, 1000000)], []
+
+
+def g_mul_f(rng):
+    sa, sb = bpair(rng)
+    return [fdata(rng, sa, -12, 12), fdata(rng, sb, -12, 12), NONE], []
+
+
+def g_concat_flip(rng):
+    s = rshape(rng, 1, 3, 48, 2)
+    ax = raxis(rng, len(s), neg=False)
+    t = list(s)
+    t[ax] = rng.randint(1, 4)
+    ax2 = raxis(rng, len(s))
+    return [lab(s), lab(t, 1000), NONE], [ax, ax2]
+
+
 # ---------------------------------------------------------------- models (NumPy)
 def relu(x):
     return np.maximum(x, np.float32(0))
@@ -463,11 +516,51 @@ _P = [
     Pipe(55, 14, "swapaxes", "swapaxes(a,ax1,ax2)", 1, "i", 1, g_swapaxes, lambda a, b, c, p: np.swapaxes(a, p[0], p[1])),
     Pipe(56, 14, "roll", "roll(a,shift,axis)", 1, "i", 1, g_roll, lambda a, b, c, p: np.roll(a, p[0], p[1])),
     Pipe(57, 14, "sum", "sum(a,axis)", 1, "i", 1, g_reduce_lab, lambda a, b, c, p: a.sum(axis=p[0])),
+    Pipe(58, 2, "concatenate_add", "concatenate(add(a,b),c,axis)", 2, "i", 1, g_concat_add, lambda a, b, c, p: np.concatenate([a + b, c], p[0])),
+    Pipe(59, 2, "flatten_concatenate_add", "flatten(concatenate(add(a,b),c,axis))", 3, "i", 0, g_concat_add, lambda a, b, c, p: np.concatenate([a + b, c], p[0]).flatten()),
+    Pipe(60, 3, "matmul_a_transpose_b", "matmul(a,transpose(b,axes))", 2, "i", 1, g_matmul_tr, lambda a, b, c, p: a @ np.transpose(b, p)),
+    Pipe(61, 3, "exp_negative_multiply", "exp(negative(multiply(a,b)))", 3, "f", 1, g_mul_f, lambda a, b, c, p: np.exp(-(a * b)), True),
+    Pipe(62, 3, "outer_add_add", "outer_add(add(a,b),c)", 2, "i", 1, g_outer_add3, lambda a, b, c, p: np.add.outer(a + b, c)),
+    Pipe(63, 15, "concatenate_a_flip_b", "concatenate(a,flip(b,axis2),axis)", 2, "i", 1, g_concat_flip, lambda a, b, c, p: np.concatenate([a, np.flip(b, p[1])], p[0])),
 ]
 
 PIPES = {p.pid: p for p in _P}
+for _i in (5, 6, 8, 9, 11, 38, 40):
+    PIPES[_i].cls = "ufunc_view_op"
+for _i in (60, 63):
+    PIPES[_i].cls = "tree_right_view"
+for _i in (11, 38, 40, 60, 63):
+    PIPES[_i].tree = True
+
+
+def _read_def():
+    import os
+    import re
+    path = os.path.join(os.path.dirname(os.path.dirname(os.path.abspath(__file__))), "harness", "c13_pipes.def")
+    g = None
+    seen = set()
+    for ln in open(path):
+        m = re.match(r"#(?:el)?if C13_GROUP == (\d+)", ln)
+        if m:
+            g = int(m.group(1))
+            continue
+        m = re.match(r"C13_PIPE\((\d+), (\w+), (\d),", ln)
+        if m:
+            pid = int(m.group(1))
+            pp = PIPES[pid]
+            pp.group = g
+            pp.dtype = "f" if m.group(2) in ("float", "double") else "i"
+            pp.raw = int(m.group(3))
+            seen.add(pid)
+    if seen != set(PIPES):
+        raise RuntimeError("c13_pipes.def and vf/c13_pipes.py disagree on the pipeline ids: %s" % sorted(seen ^ set(PIPES)))
+
+
+_read_def()
 QUICK_GROUPS = [0, 1, 2, 3]
 ALL_GROUPS = sorted({p.group for p in _P})
+# pipelines whose extraction (get_function_composition) reads a dead temporary on the unchanged tree (findings/c13_*.md)
+UAS_CLASSES = ("ufunc_view_op",)
 
 
 def to_float(arr):
